@@ -23,6 +23,7 @@ func init() {
 			"R4": "bet/raise amount clamp shape and positivity of the random draw; pay amounts",
 			"R5": "own id: Actions → adapter → engine forwarding, same name, arguments in order; the adapter is the actor's current one, looked up for every move",
 			"R6": "silence guards before the move request; a view with the same time stamp counts as stale; the time of every non-stale view is remembered before acting",
+			"R8": "receiver discipline: no method of these types assigns to a field of a value receiver (the assignment would be lost) or copies a sync.* field through its receiver (bot runner, actor, actions, engine adapter: the remembered view time, the attached actor and adapter, the setters)",
 			"R7": "timer discipline: the runner's time bank is created once, by the constructor; a view discarded by the staleness filter performs no time-bank operation (the pending move survives a re-published, unchanged hand state)",
 		},
 		Assumptions: []string{"pokerface accepts any amount between the stated minimum and the stack for bet/raise"},
@@ -33,6 +34,7 @@ func init() {
 
 func checkC18(c *Ctx) {
 	p := c.P
+	checkReceiverDiscipline(c, "R8", func(n string) bool { return n == "botRunner" || n == "actor" || n == "actions" || n == "tableEngineAdapter" }, 30)
 	checkTableLookups(c, "R6", "GamePlayerIndex")
 	checkNoKnownNilErrorReturn(c, "R3", func(f *ssa.Function) bool { return inPkg(p, f, "/actor") }, 5)
 	ri := p.Iface("/actor", "Runner")
